@@ -143,7 +143,7 @@ def state_fn(conf, hist, G, M):
 # ---- (b) all well-formed chronological event logs up to k rows through the reader ---------------
 
 def log_symbols(nt):
-    return [(p, op, t) for p in ((0, 1), (1, 2)) for op in ('+', '-') for t in range(nt)]
+    return [(p, op, t) for p in ((0, 1), (1, 2)) for op in ('+', '-') for t in range(-1, nt - 1)]     # instants straddle 0
 
 
 def wellformed(log):
@@ -210,7 +210,7 @@ def eval_log(i, data):
         diff = None
         for u in range(3):
             for v in range(3):
-                for t in range(-1, data['nt'] + 2):
+                for t in range(-3, data['nt'] + 1):
                     exp = t in want.get((u, v), set()) or ((not directed) and t in want.get((v, u), set()))
                     if bool(H.has_interaction(u, v, t)) != exp:
                         diff = (u, v, t, exp)
